@@ -15,7 +15,7 @@ RULE = ("cases enumerate a fixed grid of (class, parameter) cells reaching every
         "=1, >1; Erlang k = 9/10/11/40; one-/two-sided and tail truncation; triangular modes at the bounds; discrete "
         "distributions at small and large p) followed by seeded random cells in the C14 envelope, plus one 'erf_inv' "
         "case; stage 1: n = 20000 draws, flag at p < 1e-5; stage 2 (flagged only): fresh seed, n = 300000, violation "
-        "iff p < 1e-7 again; non-trivial = cell with a non-degenerate distribution whose sample passed through both "
+        "iff p < 1e-7 again; probabilities are asked again after integral-valued floats / bools / non-integers on the same and on an equal fresh instance; cdf outside the support and inverse cdf at 0, 1 and outside [0, 1]; non-trivial = cell with a non-degenerate distribution whose sample passed through both "
         "tests; distinct = canonical (class, parameters) hash")
 ASSUMPTIONS = ["false-alarm probability per statistical test <= 1e-12 (two independent stages 1e-5 x 1e-7); distortions with "
                "KS distance below ~0.005 are not detectable at these sample sizes",
@@ -422,6 +422,7 @@ def _pmf_checks(ctx, dist, ref, cls, args, info):
     lo = max(lo - 2, int(slo))
     hi = hi + 2 if not math.isfinite(shi) else int(shi)
     total = 0.0
+    first = {}
     for k in range(lo, hi + 1):
         ctx.count("density_points_compared")
         try:
@@ -429,6 +430,7 @@ def _pmf_checks(ctx, dist, ref, cls, args, info):
         except Exception as e:
             ctx.viol(f"probability-raises:{cls}:{type(e).__name__}", {**info, "k": k, "exc": repr(e)})
             return False
+        first[k] = p
         w = float(ref.pmf(k))
         if not (isinstance(p, (int, float)) and p >= 0.0):
             ctx.viol(f"probability-negative-or-nan:{cls}", {**info, "k": k, "p": repr(p)})
@@ -450,6 +452,28 @@ def _pmf_checks(ctx, dist, ref, cls, args, info):
         if p != 0.0:
             ctx.viol(f"probability-nonzero-outside-support:{cls}", {**info, "k": k, "p": p})
             return False
+    # the probability of k is a function of k alone: asking other questions in between (non-integral and
+    # integral-valued floats, bools, far-away values - answered or refused) changes no answer
+    ks = list(first)
+    from pydsol.core.streams import MersenneTwister
+    fresh = type(dist)(MersenneTwister(1), *args)          # an equal distribution that is asked the odd questions first
+    for d in (dist, fresh):
+        for q in [k + 0.5 for k in ks[:40]] + [float(k) for k in ks[:40]] + [True, False, -10 ** 9, 10 ** 9, 1e300]:
+            try:
+                d.probability(q)
+            except Exception:
+                pass
+        for k in reversed(ks):
+            ctx.count("probabilities_asked_again")
+            try:
+                p = d.probability(k)
+            except Exception as e:
+                ctx.viol(f"probability-raises:{cls}:{type(e).__name__}", {**info, "k": k, "exc": repr(e), "asked": "again"})
+                return False
+            if p != first[k]:
+                ctx.viol(f"probability-changes-between-calls:{cls}", {**info, "k": k, "first": first[k], "again": p,
+                                                                       "instance": "same" if d is dist else "equal, asked other values first"})
+                return False
     return True
 
 
